@@ -207,6 +207,12 @@ def run_search(ctx, tier, seed, shard, nshards, examples, t_end, shrink_cap):
     remaining = per
     chunk_no = 0
     rounds = 0
+    max_rounds = MAX_ROUNDS
+    if os.environ.get('VF_SENSITIVITY'):
+        # sensitivity runs (mutants/run_mutants.sh) only need the verdict:
+        # hardly any shrinking, stop at the first violation of the shard
+        shrink_cap = min(shrink_cap, 10)
+        max_rounds = 1
     while remaining > 0:
         if time.time() > t_end:
             st.budget_skipped += remaining
@@ -280,7 +286,7 @@ def run_search(ctx, tier, seed, shard, nshards, examples, t_end, shrink_cap):
                                   detail=state['best_detail'],
                                   spec=state['best']))
         rounds += 1
-        if rounds >= MAX_ROUNDS:
+        if rounds >= max_rounds:
             break
 
 
